@@ -153,7 +153,8 @@ class InterestTreeNode:
 
     def nack_interest(self, nack_reason: int) -> bool:
         for entry in self.pending_list:
-            entry.future.set_exception(types.InterestNack(nack_reason))
+            if not entry.future.done():
+                entry.future.set_exception(types.InterestNack(nack_reason))
         return True
 
     def satisfy(self, data: types.DataTuple, is_prefix: bool) -> bool:
@@ -570,6 +571,8 @@ class NDNApp:
                 del self._pit[node_name]
             raise types.InterestTimeout()
         except aio.CancelledError:
+            if node.timeout(future) and self._pit.get(node_name) is node:
+                del self._pit[node_name]
             raise types.InterestCanceled()
         # ValidationError, InterestNack are passed to the parent caller
         return data_name, content, pkt_context
